@@ -1,4 +1,5 @@
 import Pxv.Lemmas.Errors
+import Pxv.Lemmas.ErrorsSplice
 /-!
 C06 — errors reach the right handler, every observer, and stop the pipeline.
 
@@ -475,16 +476,6 @@ theorem attachObservers_nodes : ∀ (obs : List Nat) (g : Graph) (enew child : N
     rw [attachObservers_nodes rest]
     cases prev <;> simp [addEdge]
 
-/-- how many error handlers of `hs` get their observers attached (↔ the handlers that reach
-    `attached_observer_indexes.insert` after the `for error_observer_id` loop) -/
-def fired (obs : List Nat) : Graph → List Nat → Nat
-  | _, [] => 0
-  | g, h :: hs =>
-    if obs.isEmpty then 0 else
-    match (g.succs h).head?, errorNewOf g h with
-    | some child, some enew => fired obs (attachObservers g enew child obs none) hs + 1
-    | _, _ => fired obs g hs
-
 /-- the splice adds exactly one observer node per observer and per error handler it fires for, and no
     other node. -/
 theorem splice_nodes (obs : List Nat) : ∀ (hs : List Nat) (g : Graph),
@@ -524,13 +515,6 @@ theorem splice_nodes (obs : List Nat) : ∀ (hs : List Nat) (g : Graph),
                 simp
             rw [List.filter_append, List.length_append, this, h3]
 
-/-- how many fallible nodes get a `MatchBranching` node -/
-def injected : Graph → List Nat → Nat
-  | _, [] => 0
-  | g, x :: xs =>
-    if ((g.succs x).filter (fun m => g.kind m == .okMatch || g.kind m == .errMatch)).length != 2
-    then injected g xs else injected (injectOne g x) xs + 1
-
 theorem inject_nodes : ∀ (xs : List Nat) (g : Graph),
     (xs.foldl injectOne g).nodes = g.nodes ++ List.replicate (injected g xs) Kind.branch
   | [], g => by simp [injected]
@@ -553,7 +537,8 @@ theorem inject_nodes : ∀ (xs : List Nat) (g : Graph),
     `pavex::Error::new` — and what the check validates on every real graph). -/
 theorem n_observers_invariant_partial (obs : List Nat) (g : Graph)
     (h0 : countKind g isObserver = 0) (hb : countKind g (· == .branch) = 0)
-    (hfix : fired obs g (ehNodes g) = injected (spliceAll obs g) (fallibleNodes (spliceAll obs g))) :
+    (hfix : fired obs g (ehNodes g) * obs.length =
+      injected (spliceAll obs g) (fallibleNodes (spliceAll obs g)) * obs.length) :
     invariantHolds (injectBranching (spliceAll obs g)) obs.length = true := by
   obtain ⟨extra, h1, h2, h3⟩ := splice_nodes obs (ehNodes g) g
   have hn := inject_nodes (fallibleNodes (spliceAll obs g)) (spliceAll obs g)
@@ -578,15 +563,69 @@ theorem n_observers_invariant_partial (obs : List Nat) (g : Graph)
       simp
   rw [h0, hb, h2, h3, hr1, hr2]
   simp only [spliceAll] at hfix
-  rw [hfix]
-  simp
+  simp [hfix]
 
-/-- the full statement (no hypothesis on the fixed point): every graph that `build_call_graph` can produce
-    before the splice. Kept visible; `n_observers_invariant_partial` is the proved part. -/
-def n_observers_invariant_statement : Prop :=
-  ∀ (obs : List Nat) (g : Graph), countKind g isObserver = 0 → countKind g (· == .branch) = 0 →
-    (∀ x ∈ fallibleNodes g, ∃ h ∈ ehNodes g, ∃ m ∈ ehMatchers g h, m ∈ g.succs x) →
-    invariantHolds (injectBranching (spliceAll obs g)) obs.length = true
+/-- **C06 (j′) — `enforce_invariants` from static hypotheses on the graph before the splice**: no observer
+    or branching node yet; every edge joins two nodes; every error handler has its `IntoResponse` child (not a
+    matcher) and its `pavex::Error::new`; every fallible node has its two matchers; one error handler per
+    fallible node. Then, for every list of observers, after the splice and the branching injection the
+    number of observer nodes is the number of `MatchBranching` nodes times the number of observers.
+    (The splice fires for every handler because attaching observers to one handler leaves what it looks at
+    for the others untouched — `Ext`; likewise for the injection — `Rel`.) -/
+theorem n_observers_invariant (obs : List Nat) (g : Graph) (hc : Closed g)
+    (h0 : countKind g isObserver = 0) (hb : countKind g (· == .branch) = 0)
+    (hel : Eligible g (ehNodes g))
+    (hchild : ∀ x ∈ ehNodes g, ∀ c, (g.succs x).head? = some c → g.kind c ≠ .errMatch)
+    (hfall : ∀ x ∈ fallibleNodes g, (matcherSuccs g x).length = 2)
+    (hone : (ehNodes g).length = (fallibleNodes g).length) :
+    invariantHolds (injectBranching (spliceAll obs g)) obs.length = true := by
+  apply n_observers_invariant_partial obs g h0 hb
+  cases hne : obs.isEmpty with
+  | true =>
+    have : obs = [] := by simpa using hne
+    subst this
+    simp
+  | false =>
+    obtain ⟨hf, hext⟩ := splice_fired obs hne g hc (ehNodes g) g (ehNodes g) (fun _ h => h)
+      (Ext.refl _ g) hel
+    have hC : ∀ d, ChildOf g (ehNodes g) d → d < g.size ∧ g.kind d ≠ .errMatch := by
+      rintro d ⟨x, hx, hd⟩
+      exact ⟨succs_lt hc (List.mem_of_mem_head? hd), hchild x hx d hd⟩
+    have hfn : fallibleNodes (spliceAll obs g) = fallibleNodes g := hext.fallibleNodes_eq hc hC
+    have hc1 : Closed (spliceAll obs g) := splice_closed obs _ g hc
+    have hinj : injected (spliceAll obs g) (fallibleNodes (spliceAll obs g)) = (fallibleNodes g).length := by
+      rw [hfn]
+      apply injected_eq_length (spliceAll obs g) hc1 (fallibleNodes g) (spliceAll obs g) [] (Rel.refl _)
+      · exact List.Nodup.sublist List.filter_sublist List.nodup_range
+      · intro x hx
+        have hxlt : x < g.size := List.mem_range.mp (List.mem_filter.mp hx).1
+        refine ⟨Nat.lt_of_lt_of_le hxlt hext.size_le, by simp, ?_⟩
+        rw [show spliceAll obs g = splice obs g (ehNodes g) from rfl, hext.matcherSuccs_eq hc x hxlt]
+        exact hfall x hx
+    rw [hf, hinj, hone]
+
+/-- the same, from the executable check the driver evaluates on every real graph (with the observers and
+    branching nodes removed). -/
+theorem n_observers_invariant_of_check (obs : List Nat) (g : Graph) (h : spliceReady g = true) :
+    invariantHolds (injectBranching (spliceAll obs g)) obs.length = true := by
+  simp only [spliceReady, Bool.and_eq_true, beq_iff_eq] at h
+  obtain ⟨⟨⟨⟨⟨hc, h0⟩, hb⟩, hel⟩, hfall⟩, hone⟩ := h
+  have hel' := List.all_eq_true.mp hel
+  apply n_observers_invariant obs g ?_ h0 hb ?_ ?_ ?_ hone
+  · intro e he
+    have := List.all_eq_true.mp hc e he
+    simpa using this
+  · intro x hx
+    have := hel' x hx
+    simp only [Bool.and_eq_true, decide_eq_true_eq] at this
+    exact ⟨this.1.1.1, this.1.1.2, this.1.2⟩
+  · intro x hx c hcx
+    have := hel' x hx
+    simp only [Bool.and_eq_true, hcx, bne_iff_ne] at this
+    exact this.2
+  · intro x hx
+    have := List.all_eq_true.mp hfall x hx
+    simpa using this
 
 /-! ### non-vacuity: a handler that takes `&T0` and returns `Result`, with a specific error handler and
 two observers; the constructor of `T0` is fallible too (fallback handler).
@@ -604,7 +643,7 @@ def demo : Graph :=
     ⟨15, 16, .before⟩, ⟨12, 16, .move⟩, ⟨17, 18, .move⟩]⟩
 
 example : armsWF demo = true := by decide
-example : armShape demo 10 (.eh 3) [0, 1] = true ∧ armShape demo 1 .ehDefault [0, 1] = true := by decide
+example : armShape demo 10 (.eh 3) false [0, 1] = true ∧ armShape demo 1 .ehDefault true [0, 1] = true := by decide
 -- nothing fails: the constructor, then the handler
 example : outOf demo (fun _ => false) (runGraph demo (fun _ => false)).1 =
     [.call 0 (.ctor 0), .call 9 (.handler 0), .call 18 .intoResponse] := by decide
@@ -638,9 +677,45 @@ example : countKind demo0 isObserver = 0 ∧ countKind demo0 (· == .branch) = 0
     fired [0, 1] demo0 (ehNodes demo0) = 2 ∧
     injected (spliceAll [0, 1] demo0) (fallibleNodes (spliceAll [0, 1] demo0)) = 2 ∧
     countKind (injectBranching (spliceAll [0, 1] demo0)) isObserver = 4 := by decide
+example : spliceReady demo0 = true := by decide
+-- the static hypotheses of `n_observers_invariant` hold on it as well
+example : Closed demo0 ∧ Eligible demo0 (ehNodes demo0) ∧
+    (∀ x ∈ ehNodes demo0, ∀ c, (demo0.succs x).head? = some c → demo0.kind c ≠ .errMatch) ∧
+    (∀ x ∈ fallibleNodes demo0, (matcherSuccs demo0 x).length = 2) ∧
+    (ehNodes demo0).length = (fallibleNodes demo0).length :=
+  ⟨by decide, by decide, by decide, by decide, by decide⟩
 -- and the graph the model builds has well-formed arms of the predicted shape
 example : let g := injectBranching (spliceAll [0, 1] demo0)
     oneParent g = true ∧
-    armShape g 17 .ehDefault [0, 1] = true ∧ armShape g 18 (.eh 3) [0, 1] = true := by decide
+    armShape g 17 .ehDefault true [0, 1] = true ∧ armShape g 18 (.eh 3) false [0, 1] = true := by decide
+
+/-! ### non-vacuity of part (3): the route `h0` of `demo` behind `wrap m2`, `pre m3` and `post m1` -/
+
+def gPost : Graph := ⟨[.input, .mw 1, .intoResponse], [⟨0, 1, .move⟩, ⟨1, 2, .move⟩]⟩
+def gPre : Graph := ⟨[.mw 3], []⟩
+def gWrap : Graph := ⟨[.other, .other, .mw 2, .intoResponse], [⟨0, 1, .move⟩, ⟨1, 2, .move⟩, ⟨2, 3, .move⟩]⟩
+def gNoop : Graph := ⟨[.other, .other, .noop, .intoResponse], [⟨0, 1, .move⟩, ⟨1, 2, .move⟩, ⟨2, 3, .move⟩]⟩
+
+def demoEnv (failing : List Kind) (early : List Nat) : Env :=
+  ⟨fun k => match k with
+    | .handler _ => demo | .mw 1 => gPost | .mw 3 => gPre | .mw 2 => gWrap | _ => gNoop,
+   fun k => failing.contains k, fun p => early.contains p, fun k => 520 + k⟩
+
+def demoChain : List Mw := [⟨.wrap, 2⟩, ⟨.post, 1⟩, ⟨.pre, 3⟩]
+
+-- nothing fails
+example : runRoute (demoEnv [] []) demoChain 0 =
+    ⟨[.wrapStart 2, .pre 3, .ctor 0, .handler 0, .post 1, .wrapEnd 2], 200, false⟩ := by decide
+-- the handler fails: its handler x3, the observers, then the remaining post-processing and the enclosing
+-- wrapping middleware resume; the client sees x3's status
+example : runRoute (demoEnv [.handler 0] []) demoChain 0 =
+    ⟨[.wrapStart 2, .pre 3, .ctor 0, .failHandler 0, .eh 3, .observer 0, .observer 1, .post 1, .wrapEnd 2], 523, false⟩ := by
+  decide
+-- the constructor fails: the framework's handler (500), the handler `h0` never runs
+example : runRoute (demoEnv [.ctor 0, .handler 0] []) demoChain 0 =
+    ⟨[.wrapStart 2, .pre 3, .failCtor 0, .observer 0, .observer 1, .post 1, .wrapEnd 2], 500, false⟩ := by decide
+-- the wrapping middleware fails before awaiting `next`: nothing inside it runs (its graph here has no
+-- error arm, so the model flags the run as stuck: a fallible component must come with its matchers)
+example : (runRoute (demoEnv [.mw 2] []) demoChain 0).evs = [.failMw 2] := by decide
 
 end Pxv.Err
